@@ -23,6 +23,24 @@ fn body12(salt: usize) -> Vec<u8> {
     b
 }
 
+/// V9 packet / IPFIX message whose header fields (source id / observation domain, sequence number, clocks) vary
+/// with the salt: neighbours in a buffer then come from "different exporters" - the caches are per parser and
+/// protocol, never per source
+fn h9(salt: usize, sets: Vec<V9Set>) -> Vec<u8> {
+    let mut p = V9Pkt::new(sets);
+    p.source_id = 0x0c0d_0e00 + (salt % 5) as u32;
+    p.seq = 0x0a0b + salt as u32;
+    p.sys_up_time += salt as u32 * 1000;
+    v9_packet(&p)
+}
+fn h10(salt: usize, sets: Vec<IpfixSet>) -> Vec<u8> {
+    let mut m = IpfixMsg::new(sets);
+    m.odid = 0x3e4f_5a00 + (salt % 3) as u32;
+    m.seq = 0x1c2d + salt as u32;
+    m.export_time += salt as u32;
+    ipfix_message(&m)
+}
+
 /// packet k of the menu; `salt` varies the data bytes so that repeated packets stay distinguishable
 pub fn packet(k: usize, salt: usize) -> Vec<u8> {
     let v9a = V9Tpl { id: 256, fields: vec![fs(8, 4), fs(7, 2), fs(4, 1), fs(5, 1), fs(1, 4)] };
@@ -33,24 +51,24 @@ pub fn packet(k: usize, salt: usize) -> Vec<u8> {
         0 => fixed_distinct(5, 0, salt),
         1 => fixed_distinct(5, 2, salt),
         2 => fixed_distinct(7, 1, salt),
-        3 => v9_packet(&V9Pkt::new(vec![V9Set::Tpl(vec![v9a], 0)])),
-        4 => v9_packet(&V9Pkt::new(vec![V9Set::Data(256, body12(salt))])),
-        5 => v9_packet(&V9Pkt::new(vec![V9Set::Tpl(vec![v9a], 0), V9Set::Data(256, body12(salt + 1))])),
-        6 => v9_packet(&V9Pkt::new(vec![V9Set::OptTpl(vec![v9o], if salt % 2 == 0 { 2 } else { 0 }), V9Set::Data(258, { let mut b = body12(salt + 2)[..8].to_vec(); b.extend(std::iter::repeat(0).take(salt % 3)); b })])),
-        7 => ipfix_message(&IpfixMsg::new(vec![IpfixSet::Tpl(vec![ia], 0)])),
-        8 => ipfix_message(&IpfixMsg::new(vec![IpfixSet::Data(256, body12(salt + 3))])),
-        9 => ipfix_message(&IpfixMsg::new(vec![IpfixSet::Tpl(vec![ia], 0), IpfixSet::Data(256, body12(salt + 4))])),
-        10 => ipfix_message(&IpfixMsg::new(vec![IpfixSet::Tpl(vec![ib], 0)])),
-        11 => ipfix_message(&IpfixMsg::new(vec![IpfixSet::Data(999, body12(salt + 5))])),
+        3 => h9(salt, vec![V9Set::Tpl(vec![v9a], 0)]),
+        4 => h9(salt, vec![V9Set::Data(256, body12(salt))]),
+        5 => h9(salt, vec![V9Set::Tpl(vec![v9a], 0), V9Set::Data(256, body12(salt + 1))]),
+        6 => h9(salt, vec![V9Set::OptTpl(vec![v9o], if salt % 2 == 0 { 2 } else { 0 }), V9Set::Data(258, { let mut b = body12(salt + 2)[..8].to_vec(); b.extend(std::iter::repeat(0).take(salt % 3)); b })]),
+        7 => h10(salt, vec![IpfixSet::Tpl(vec![ia], 0)]),
+        8 => h10(salt, vec![IpfixSet::Data(256, body12(salt + 3))]),
+        9 => h10(salt, vec![IpfixSet::Tpl(vec![ia], 0), IpfixSet::Data(256, body12(salt + 4))]),
+        10 => h10(salt, vec![IpfixSet::Tpl(vec![ib], 0)]),
+        11 => h10(salt, vec![IpfixSet::Data(999, body12(salt + 5))]),
         // the two shortest packets there are: nothing but a header
-        12 => ipfix_message(&IpfixMsg::new(vec![])),
-        13 => v9_packet(&V9Pkt::new(vec![])),
+        12 => h10(salt, vec![]),
+        13 => h9(salt, vec![]),
         14 => fixed_distinct(7, 0, salt),
         // data for 256 followed, in the same packet, by a redefinition of 256 (parsing such a packet twice is not idempotent);
         // independent of the position, so that a sequence can hold two byte-identical adjacent packets
         15 => v9_packet(&V9Pkt::new(vec![V9Set::Data(256, body12(7)), V9Set::Tpl(vec![V9Tpl { id: 256, fields: vec![fs(2, 8), fs(96, 4)] }], 0)])),
         16 => ipfix_message(&IpfixMsg::new(vec![IpfixSet::Data(256, body12(8)), IpfixSet::Tpl(vec![IpfixTpl { id: 256, fields: vec![fs(8, 4), fs(7, 2), fs(4, 1), fs(5, 1), fs(1, 4)] }], 0)])),
-        17 => v9_packet(&V9Pkt::new(vec![V9Set::Data(999, body12(salt + 6))])),
+        17 => h9(salt, vec![V9Set::Data(999, body12(salt + 6))]),
         18 => {
             let mut b = fixed_distinct(5, 1, salt);
             b[1] = 6;
